@@ -75,7 +75,7 @@ class C19(scen.WorldProp):
                 "Wheatley.C19.look_to_is_activity_atomic",
                 "Wheatley.C19.exit_law",
                 "Wheatley.C19.inactivity_is_300s",
-                "Wheatley.C19.server_mode_starts_empty"]
+                "Wheatley.C19.server_mode_starts_empty", "Wheatley.C19.method_changes_only_at_look_to"]
     generated_deps = ["Constants.lean", "Arith.lean", "HandlerIR.lean", "CliDefaults.lean"]
     quick_budget_s = 150
     level_text = ("theorems: the handlers' lock/cell action sequences, regenerated from bot.py on every run, obey the "
